@@ -43,8 +43,12 @@ pub enum Ev {
     E,
     /// like T, but the delivery is not settled: the application's accept() sends a disposition
     TU,
+    /// a flow on the SENDER link's handle with echo=true that at the same time sets incoming-window 2: the library
+    /// must answer with its state (a link flow cannot be left unanswered) and may have to release held-back transfers
+    /// in the same step; the answer's next-outgoing-id must count exactly the frames written before it
+    EL2,
 }
-pub const ALPHABET: [Ev; 12] = [Ev::S1, Ev::F1, Ev::F2, Ev::S3, Ev::F0, Ev::E, Ev::T, Ev::TU, Ev::F5, Ev::FStale2, Ev::FStale0, Ev::FUnset2];
+pub const ALPHABET: [Ev; 13] = [Ev::S1, Ev::F1, Ev::F2, Ev::S3, Ev::F0, Ev::E, Ev::T, Ev::TU, Ev::EL2, Ev::F5, Ev::FStale2, Ev::FStale0, Ev::FUnset2];
 
 #[derive(Debug, Clone, Default)]
 pub struct Obs {
@@ -204,17 +208,35 @@ pub async fn scenario(x: u32, link_split: bool, events: Vec<Ev>) -> Obs {
                     Some(Ev::FStale2) => (Some(peer_nii.wrapping_sub(1)), 2, false),
                     Some(Ev::FStale0) => (Some(peer_nii.wrapping_sub(1)), 0, false),
                     Some(Ev::E) => (Some(peer_nii), sdiff(limit, peer_nii).max(0) as u32, true),
+                    Some(Ev::EL2) => (Some(peer_nii), 2, true),
                     None => (Some(peer_nii), 10_000, false),
                     _ => unreachable!(),
+                };
+                // (EL2: the receiving end of the library's sender link states what it has seen of that link)
+                // delivery-count = the sender's initial value (0) + deliveries it has started on the wire
+                let link_part = if other == Some(Ev::EL2) {
+                    let mut started = 0u32;
+                    let mut in_progress = false;
+                    for w in lib_transfer_frames(&c.peer.trace, snd_handle) {
+                        if let Some(Performative::Transfer(t)) = w.perf() {
+                            if !in_progress {
+                                started += 1;
+                            }
+                            in_progress = t.more;
+                        }
+                    }
+                    c.peer.links.iter().find(|l| l.lib_handle == snd_handle && !l.detached).map(|l| (l.our_handle, started))
+                } else {
+                    None
                 };
                 let f = Flow {
                     next_incoming_id: nii,
                     incoming_window: iw,
                     next_outgoing_id: peer_noi0.wrapping_add(peer_sent_transfers),
                     outgoing_window: 1000,
-                    handle: None,
-                    delivery_count: None,
-                    link_credit: None,
+                    handle: link_part.map(|(h, _)| Handle(h)),
+                    delivery_count: link_part.map(|(_, dc)| dc),
+                    link_credit: link_part.map(|_| 100_000),
                     available: None,
                     drain: false,
                     echo,
